@@ -182,6 +182,7 @@ OPS_A = {   # property -> (invariants of spec/GFIOps.tla, quick program set, tho
     "C14": (["Consistent", "RefinesLaws", "UndoRestores"], ["MskD"], ["MskD", "Msk", "MskSw"]),
     "C11": (["Consistent", "RefinesLaws", "UndoRestores"], ["VmD"], ["VmD", "Rep3"]),   # elementwise vmap/repeat rules, PV {0,1}
 }
+OPS_A["C12"] = (["Consistent", "RefinesLaws", "UndoRestores"], ["Sc2"], ["Sc1", "Sc2", "Sc3"])   # Scan.edit_update loop rule
 OPS_PV = {"C11": "{0, 1}"}
 
 
@@ -194,19 +195,29 @@ def ops_a(prop_id, wd, tier, rep):
     invs, quick, thorough = OPS_A[prop_id]
     progs = quick if tier == "quick" else thorough
 
-    def run(tag, mask_after, switch_zero, expect_ok):
+    def run(tag, mask_after, switch_zero, expect_ok, scan_retag="TRUE", progs=progs):
         with open(os.path.join(wd, f"MCops_{tag}.tla"), "w") as f:
             f.write(f"---- MODULE MCops_{tag} ----\nEXTENDS GFIOps\ncProgs == {{" + ", ".join(json.dumps(x) for x in progs) +
                     "}\ncPV == " + OPS_PV.get(prop_id, "{0, 2}") + "\n====\n")
         with open(os.path.join(wd, f"MCops_{tag}.cfg"), "w") as f:
-            f.write("CONSTANTS OpsProgs <- cProgs\n PV <- cPV\n" + f" MaskBwdAfter = {mask_after}\n SwitchBwdZero = {switch_zero}\nSPECIFICATION Spec\n" +
+            f.write("CONSTANTS OpsProgs <- cProgs\n PV <- cPV\n" + f" MaskBwdAfter = {mask_after}\n SwitchBwdZero = {switch_zero}\n ScanRetagsAll = {scan_retag}\nSPECIFICATION Spec\n" +
                     "".join(f"INVARIANT {i}\n" for i in (invs if expect_ok else ["RefinesLaws", "UndoRestores"])) + "CHECK_DEADLOCK FALSE\n")
         return vlib.run_tlc(f"MCops_{tag}", os.path.join(wd, f"MCops_{tag}.cfg"), wd, spec_dir=wd, jvm=JVM_LIB + ["-Xss64m"],
                             tag=f"ops_{tag}", timeout=3000, expect_ok=expect_ok)
     res = run("ok", "FALSE", "FALSE", True)
     rep.add_tlc(res)
     info = {"module": "GFIOps", "invariants": invs, "programs": progs, "distinct_states": res.distinct, "result": "no invariant violated"}
-    if tier == "thorough" and prop_id != "C11":
+    if prop_id == "C12":
+        # the scan rule as implemented (every kernel argument retagged UnknownChange) breaks LawUpdKept exactly on a
+        # kernel containing a switch (finding KF-C05-2); with honest carry tags the same program refines the laws
+        r = run("scansw_asimpl", "FALSE", "FALSE", False, "TRUE", ["ScSw"])
+        if r.rc == 0:
+            raise vlib.MachineryError("GFIOps: scan-of-switch with retagged arguments was accepted: RefinesLaws is vacuous on scan")
+        r2 = run("scansw_honest", "FALSE", "FALSE", True, "FALSE", ["ScSw"])
+        rep.add_tlc(r2)
+        info["scan_of_switch"] = ("as implemented (ScanRetagsAll): counterexample to RefinesLaws = finding KF-C05-2; "
+                                  f"with honest carry tags: {r2.distinct} states, no invariant violated")
+    if tier == "thorough" and prop_id not in ("C11", "C12"):
         for tag, ma, sz in (("maskbwd", "TRUE", "FALSE"), ("switchbwd", "FALSE", "TRUE")):
             r = run(tag, ma, sz, False)
             if r.rc == 0:
